@@ -195,6 +195,24 @@ def o_context(rec: Recorder, case, soft=False):
         if ctx.needs_update(hi) is not want:
             rec.fail("C20/context/needs-update", "libpass CryptContext.needs_update(h) != (first scheme does not identify h)", "context", dict(case, index=i), ctx.needs_update(hi), want, soft=soft)
             return
+    # hashes in the first scheme's format but of another cost / made by the other API: "asks for an update exactly for hashes that are
+    # not in the first scheme's format"
+    p0 = schemes[0]
+    other_cost = 1500 if p0.startswith("sha") else (3 if p0.startswith("pbkdf2") else 5)
+    same_format = [("libpass-other-cost", lib_hasher(p0, other_cost).hash(secret))]
+    ph = table.handler(PAIRS[p0][1])
+    same_format.append(("passlib-other-cost", ph.using(rounds=other_cost, **({"ident": "2b"} if p0 == "bcrypt" else {})).hash(secret)))
+    if p0.startswith("sha"):
+        same_format.append(("implicit-5000", ph.using(rounds=5000).hash(secret)))
+    for label, hs in same_format:
+        if hashers[0].identify(hs) is not True:
+            continue  # judged by the identify matrix
+        if ctx.needs_update(hs) is not False:
+            rec.fail("C20/context/needs-update-same-format", f"libpass CryptContext.needs_update() is True for a hash in the first scheme's format ({label})", "context", dict(case, which=label), True, False, soft=soft)
+            return
+        if ctx.verify(secret, hs) is not True:
+            rec.fail("C20/context/verify-same-format", f"libpass CryptContext.verify() rejects a hash in the first scheme's format ({label})", "context", dict(case, which=label), False, True, soft=soft)
+            return
     for foreign in ("$1$abc$BaJRFlsP2lXZkHnVZ/ySe0", "", "notahash"):
         if ctx.verify(secret, foreign) is not False or ctx.needs_update(foreign) is not True:
             rec.fail("C20/context/foreign", "libpass CryptContext verifies / does not flag a foreign string", "context", dict(case, foreign=foreign), None, None, soft=soft)
